@@ -166,7 +166,8 @@ func zz35Oracle(out *http.Request, peerIP, reqHost string, gwPort int) {
 	rt.Assert(nProto == 1, "x-forwarded-proto-is-set-once")
 }
 
-// zz35Headers serialises a header set (insertion order) for engine-vs-native comparison on witness replay.
+// zz35Observe exposes the outbound headers the proxy itself writes or keeps, for engine-vs-native comparison on
+// witness replay (this is what validates the engine's execution of the stdlib part against the real build).
 func zz35Observe(out *http.Request) {
 	for _, k := range []string{"X-Forwarded-For", "X-Forwarded-Host", "X-Forwarded-Proto", "Connection", "Upgrade", "Te", "Accept", "User-Agent"} {
 		rt.ObserveString("out."+k, strings.Join(out.Header[k], "|"))
@@ -192,13 +193,16 @@ func zz35Wire(name string, spelling int) string {
 
 var zz35Protos = []string{"", "HTTP/1.1", "HTTP/2.0", "HTTP/3.0"}
 
-var zz35Ports = []int{443, 8443, 444, 442, 80, 1, 65535}
+// gateway ports: both neighbours of the 443 boundary come first so that every tier has them
+var zz35Ports = []int{443, 444, 442, 8443, 80, 1, 65535}
+
+var zz35PortsSpoof = []int{8443, 443}
 
 // ZZ_C35_SpoofedHeaders: every combination of 0..maxvals client-supplied values (arbitrary bytes) for each spoofable
 // header, in HTTP/1.1 (three spellings of the field names), HTTP/2 and HTTP/3 style, optionally together with a
 // Connection header that names some of them as hop-by-hop.
 func ZZ_C35_SpoofedHeaders() {
-	port := zz35Ports[rt.Choose("gwport", rt.Bound("ports"))]
+	port := zz35PortsSpoof[rt.Choose("gwport", rt.Bound("ports"))]
 	g := &Gateway{GatewayConfig: GatewayConfig{GatewayPort: port}}
 	style := rt.Choose("style", 5) // 0,1,2: HTTP/1.1 with spelling 0,1,2; 3: HTTP/2; 4: HTTP/3
 	major, minor, spelling := 1, 1, style
@@ -212,7 +216,7 @@ func ZZ_C35_SpoofedHeaders() {
 	in := zz35Inbound(zz35Protos[major], major, minor, host, "192.0.2.7:51234", &tls.ConnectionState{ServerName: host})
 	in.Header.Add(zz35Wire("Accept", spelling), "*/*")
 	maxvals := rt.Bound("maxvals")
-	nheaders := rt.Bound("headers") // how many of the spoofable names are in play
+	nheaders := rt.Bound("headers") // how many of the spoofable names are in play (5: all but RFC 7239 "Forwarded", which the statement does not name)
 	spoofed := 0
 	for i := 0; i < nheaders; i++ {
 		name := zz35Spoofable[i]
